@@ -185,6 +185,14 @@ def m_part(run, scr, nat):
             it_.write_ref(a[0], MapVal(st.entries + [(tok, Opaque("unit"))]), env2)
             return [([], SV("bool", "true"), "return", None, {"env": env2})]
 
+        def m_set_extend(it_, a, c_):
+            """`HashSet<&str>::extend(iter)`: every item of the iterator becomes a member, in order"""
+            st = v(a[0])
+            toks = [v(x) for x in models._iter_items(it_, a[1])]
+            env2 = fork_env(it_.cur_env)
+            it_.write_ref(a[0], MapVal(st.entries + [(t, Opaque("unit")) for t in toks]), env2)
+            return [([], Opaque("unit"), "return", None, {"env": env2})]
+
         def m_opt_replace(it_, a, c_):
             old = v(a[0])
             env2 = fork_env(it_.cur_env)
@@ -223,6 +231,7 @@ def m_part(run, scr, nat):
             r"^(std::collections::)?HashSet::<&str>::new$": lambda it_, a, c_: MapVal([]),
             r"^(std::collections::)?HashSet::<&str>::get::<str>$": m_set_get,
             r"^(std::collections::)?HashSet::<&str>::insert$": m_set_insert,
+            r"^<(std::collections::)?HashSet<&str> as (std::iter::)?Extend<&str>>::extend::<": m_set_extend,
             r"^std::option::Option::<Category<'_>>::replace$": m_opt_replace,
             r"^<str as ToString>::to_string$": models.m_identity,
             r"^(std::cell::)?Cell::<usize>::new$": models.m_opaque,
